@@ -499,7 +499,7 @@ theorem c13_x_sealedGetTIDs : SV.Extracted.C13.sealedGetTIDs =
     ["field := parser.GetField(t)", "searchStr := parser.GetHint(t)", "tokenTable := ti.tokenTableLoader.Load()", "entries := tokenTable.SelectEntries(field, searchStr)", "if len(entries) == 0", "return nil, nil", "tp := token.NewProvider(ti.tokenBlockLoader, entries)", "tids, err := pattern.Search(ti.ctx, t, tp)", "if err != nil", "return nil, fmt.Errorf(\"search error: %s field: %s, query: %s\", err, field, searchStr)", "return tids, nil"] := rfl
 
 theorem c13_x_tableLoaderLoad : SV.Extracted.C13.tableLoaderLoad =
-    ["l.i = 1", "for h := l.readHeader(); h.Len() > 0; ", "h := l.readHeader()", "h = l.readHeader()", "size := 0", "tokenTable := make(map[string]*FieldData)", "for block, err := l.readBlock(); len(block) > 0; block, err = l.readBlock()", "block, err := l.readBlock()", "block, err = l.readBlock()", "if err != nil", "return nil, 0, err", "unpacker := packer.NewBytesUnpacker(block)", "for ; unpacker.Len() > 0; ", "fieldName := string(unpacker.GetBinary())", "field := FieldData{Entries: make([]*TableEntry, unpacker.GetUint32())}", "entries := make([]TableEntry, len(field.Entries))", "range i := field.Entries", "e := &entries[i]", "e.StartTID = unpacker.GetUint32()", "e.ValCount = unpacker.GetUint32()", "e.StartIndex = unpacker.GetUint32()", "e.BlockIndex = unpacker.GetUint32()", "minVal := unpacker.GetBinary()", "if i == 0", "field.MinVal = string(minVal)", "e.MaxVal = string(unpacker.GetBinary())", "field.Entries[i] = e", "size += len(e.MaxVal)", "tokenTable[fieldName] = &field", "size += len(fieldName) + len(entries)*int(TableEntrySize) + len(field.MinVal)", "size += len(tokenTable) * int(FieldDataSize)", "return tokenTable, size, nil"] := rfl
+    ["l.i = 1", "for h := l.readHeader(); h.Len() > 0; ", "h := l.readHeader()", "h = l.readHeader()", "size := 0", "tokenTable := make(map[string]*FieldData)", "for ; ; ", "block, err := l.readBlock()", "if err != nil", "return nil, 0, err", "if len(block) == 0", "unpacker := packer.NewBytesUnpacker(block)", "for ; unpacker.Len() > 0; ", "fieldName := string(unpacker.GetBinary())", "field := FieldData{Entries: make([]*TableEntry, unpacker.GetUint32())}", "entries := make([]TableEntry, len(field.Entries))", "range i := field.Entries", "e := &entries[i]", "e.StartTID = unpacker.GetUint32()", "e.ValCount = unpacker.GetUint32()", "e.StartIndex = unpacker.GetUint32()", "e.BlockIndex = unpacker.GetUint32()", "minVal := unpacker.GetBinary()", "if i == 0", "field.MinVal = string(minVal)", "e.MaxVal = string(unpacker.GetBinary())", "field.Entries[i] = e", "size += len(e.MaxVal)", "tokenTable[fieldName] = &field", "size += len(fieldName) + len(entries)*int(TableEntrySize) + len(field.MinVal)", "size += len(tokenTable) * int(FieldDataSize)", "return tokenTable, size, nil"] := rfl
 
 theorem c13_x_tableLoaderReadBlock : SV.Extracted.C13.tableLoaderReadBlock =
     ["block, _, err := l.reader.ReadIndexBlock(l.i, l.buf)", "l.buf = block", "l.i++", "return block, err"] := rfl
